@@ -861,8 +861,13 @@ where
             crate::alloc::disarm();
         }
         if r.is_none() {
-            failed = true;
-            return false;
+            if tx.stop {
+                failed = true;
+                return false;
+            }
+            // transient-fault families: the insert was rejected with Err, the caller keeps inserting
+            // (the rejected entry is not part of the volume accounting)
+            return true;
         }
         {
             let mut e = env.0.borrow_mut();
